@@ -24,7 +24,13 @@ EXTRACT = ["C09"]
 BINS = ["c09"]
 NEEDS_CICADA = True
 ALLOWED_AXIOMS = []
-PINNED = ["C09_full", "C09_refuted", "C09_partial", "C09_step", "C09_abs", "C09_refuted_ifs_shadowed", "C09_refuted_read_rejoined", "C09_refuted_cd_home_missing", "C09_refuted_cd_home_not_exported", "C09_nonvacuous"]
+PINNED = ["C09_full", "C09_refuted", "C09_partial", "C09_step", "C09_abs", "C09_pwd", "C09_full_after_repairs",
+          "C09_refuted_ifs_shadowed", "C09_refuted_read_rejoined", "C09_refuted_cd_home_not_exported", "C09_nonvacuous"]
+# Which of the proposed repairs notes/C09-fix-3..5.patch the tree under test contains (letters: e = export removes
+# the shell-local binding, r = read cuts with splitn, c = cd takes HOME like a reference). The model, the
+# specification's bookkeeping and the known-class predicate are parametric in these flags and the theorems hold for
+# every setting; when a repair is committed to /repo add its letter here (and turn the finding line into a fixed: line).
+FIXES_IN_TREE = ""
 TRUSTED = [
     "Coq 8.16.1 kernel (coqc; coqchk in thorough); vm_compute only in Example witnesses and refutation witnesses",
     "hand transcription of set_env/get_env/remove_env/expand_one_env's lookup, drain_env_tokens, run_proc, the child "
@@ -361,8 +367,6 @@ class Judge:
                     continue
                 if io == m["spec"]:
                     self.repaired[cls] = self.repaired.get(cls, 0) + 1
-                    if cls == "prefix-over-exported":
-                        continue
                     return  # state of model and implementation may differ from here on
                 self.violate(kind="oracle", failing_input=True, expected=m["spec"], observed=io,
                              note="inside known class %s but neither the recorded behaviour nor the specified one" % cls, **ctx)
@@ -447,12 +451,11 @@ def l2_observe(ops, recs, rc, workroot):
     # a shell that died: everything from the first unobserved op with no later observation
     if rc == 101:
         last = max([k for k, (oc, _) in enumerate(out) if oc is not None], default=-1)
-        # the op that panicked is the first cd-without-argument after the last observation
-        for k in range(last + 1, len(ops)):
-            if ops[k].kind == "cd":
-                out[k] = ("PANIC", None)
-                out = out[:k + 1]
-                break
+        # the shell died: blame the first operation after the last observation
+        k = last + 1
+        if k < len(ops):
+            out[k] = ("PANIC", None)
+            out = out[:k + 1]
     return out
 
 
@@ -523,6 +526,8 @@ def run(ctx, res):
         "chained symlinks, a symlink to a file, a dangling one and a name with a blank. Non-trivial = distinct "
         "(operation kind, model outcome, model state) triples in which the state or the outcome is not the initial / empty one."
         % (4 if ctx.thorough else 3, len(LINES) + 4, VALUES))
+    os.environ["C09_FIXES"] = os.environ.get("C09_FIXES", FIXES_IN_TREE)
+    res.extra["fix_flags"] = os.environ["C09_FIXES"]
     judge = Judge(res, kf)
     # ---------------- L1a
     if not ctx.replay:
@@ -566,7 +571,7 @@ def run(ctx, res):
             confine_redirects(ops, parse_model(ml), root)
         cases1 = [hist_case(root, fstab, ops) for ops in hist1]
         p1 = C.write_cases("c09_l1b.txt", cases1)
-        io1 = C.run_impl(ctx.bins["c09"], p1, len(cases1))
+        io1 = C.run_impl(ctx.bins["c09"], p1, len(cases1), env={"HX_CASE_TIMEOUT_MS": "30000"})
         res.count("L1b_histories", len(cases1))
         res.count("L1b_operations", sum(len(o) for o in hist1))
         for hi, (ops, ml, il) in enumerate(zip(hist1, mo1, io1)):
